@@ -460,6 +460,7 @@ type FuncContract struct {
 	HasMod    bool
 	Loops     map[int]*LoopSpec
 	MayPanic  bool
+	Mutates   bool // writes objects of "immutable" types that it did not allocate (in-place reducers, construction helpers)
 	Opaque    bool // body not verified: contract is trusted
 	Pure      bool // extern: no heap effect
 	Deterministic bool // results are functions of the scalar/string arguments
@@ -496,6 +497,7 @@ func (fc *FuncContract) merge(o *FuncContract) {
 		}
 	}
 	fc.MayPanic = fc.MayPanic || o.MayPanic
+	fc.Mutates = fc.Mutates || o.Mutates
 	fc.Opaque = fc.Opaque || o.Opaque
 	fc.Pure = fc.Pure || o.Pure
 	fc.Deterministic = fc.Deterministic || o.Deterministic
@@ -568,7 +570,7 @@ type Ghost struct {
 
 var clauseKeywords = map[string]bool{
 	"spec": true, "pred": true, "func": true, "iface": true, "extern": true, "lemma": true,
-	"requires": true, "ensures": true, "modifies": true, "loop": true, "maypanic": true,
+	"requires": true, "ensures": true, "modifies": true, "loop": true, "maypanic": true, "mutates": true,
 	"opaque": true, "pure": true, "assume": true, "noinline": true, "overflow": true,
 	"wraps": true, "fresh": true, "at": true, "induction": true, "params": true,
 	"ghost": true, "chaninv": true, "ufunc": true, "immutable": true, "inline": true, "uses": true, "postuses": true, "private": true, "deterministic": true, "pkginv": true,
@@ -797,6 +799,8 @@ func parseContractLines(pkg string, lines []string) (*PkgContracts, error) {
 				kind = "callassume" // trusted fact about the state after the call
 			}
 			cur.CallSites = append(cur.CallSites, &CallSiteSpec{Callee: callee, Ordinal: ord, Clause: &Clause{Kind: kind, Label: label, Src: src, E: e}})
+		case "mutates":
+			cur.Mutates = true
 		case "maypanic":
 			cur.MayPanic = true
 		case "opaque":
